@@ -50,6 +50,11 @@ def R1_global_accrual(run):
             others = [bi for bi, t in fn.calls() if (callee_path(t) or "").endswith(("checked_mul_div", "wrapping_add"))]
             ok = all(A.guarded_by(fn, ts_at, b) for b in others) and ts_at.block in (0, 1, 2, 3) or all(A.guarded_by(fn, ts_at, b) for b in others)
             run.check("R1", "timestamp-first@" + short, ok and others, "%s computes accrual before checking the timestamp" % path, loc=fn.loc(), detail="check dominates the accrual")
+            # ... and before every way out: no successful return (the unchanged-growth early returns included) avoids the test, or an
+            # earlier timestamp would be accepted and stored while the pool has no liquidity
+            byp = cfg.success_reach(fn, 0, cut_blocks=[ts_at.block])
+            run.check("R1", "timestamp-before-noop@" + short, not byp, "%s can return successfully without having compared next_timestamp with reward_last_updated_timestamp "
+                      "(an early return runs before the InvalidTimestamp test)" % path, loc=fn.loc(), detail="every successful return passes the timestamp test")
         # no-op conditions: both must lead to a return without reaching checked_mul_div
         md = [bi for bi, t in fn.calls() if (callee_path(t) or "").endswith("checked_mul_div")]
         for name, at in (("zero-liquidity", liq0), ("same-timestamp", same_ts)):
